@@ -173,17 +173,30 @@ def classify(verdict_lines, known):
 
 
 def shrink(prop, ctx, case, kind_of, budget=40):
-    """greedy line-removal shrinking; kind_of(verdict lines) -> signature kind that must persist"""
-    cur = case
+    """delta-debugging style shrinking with a wall-clock budget: remove chunks of lines (halves, quarters, ...
+    single lines) as long as the judge keeps reporting a verdict of the same kind.  Plugins may veto candidates
+    (prop.shrink_ok) or switch shrinking off (prop.no_shrink)."""
+    if getattr(prop, "no_shrink", False):
+        return case
+    deadline = time.time() + float(os.environ.get("NV_SHRINK_SECONDS", "90"))
     want = kind_of
+    cur = case
+    n = len(cur.lines)
+    chunk = max(1, n // 2)
     rounds = 0
-    while rounds < budget:
+    while chunk >= 1 and time.time() < deadline and rounds < 200:
         rounds += 1
         cands = []
-        for i in range(len(cur.lines)):
-            cands.append(E.Case("s%d" % i, cur.lines[:i] + cur.lines[i + 1:]))
+        i = 0
+        while i < len(cur.lines):
+            lines = cur.lines[:i] + cur.lines[i + chunk:]
+            if lines and (not hasattr(prop, "shrink_ok") or prop.shrink_ok(lines)):
+                cands.append(E.Case("s%d" % i, lines))
+            i += chunk
+        cands = cands[:64]
         if not cands:
-            break
+            chunk //= 2
+            continue
         try:
             impl = {k: prop.canon(v) for k, v in prop.run_impl(ctx, cands).items()}
             jd = prop.run_judge(ctx, cands, impl)
@@ -192,12 +205,16 @@ def shrink(prop, ctx, case, kind_of, budget=40):
         better = None
         for c in cands:
             v = jd.get(c.id, [])
-            if any(x.startswith("bad ") and x.split()[1] == want for x in v):
+            if any(x.startswith("bad ") and len(x.split()) > 1 and x.split()[1] == want for x in v):
                 better = c
                 break
         if better is None:
-            break
-        cur = E.Case(case.id, better.lines, case.meta)
+            if chunk == 1:
+                break
+            chunk //= 2
+        else:
+            cur = E.Case(case.id, better.lines, case.meta)
+            chunk = min(chunk, max(1, len(cur.lines) // 2))
     return cur
 
 
